@@ -340,20 +340,21 @@ type world struct {
 	ts         int64
 	base       time.Time
 
-	mu        sync.Mutex
-	fed       []fedEntry
-	known     map[string]bool            // keys (with target) currently stored, as seen through the feed
-	lastTouch map[string]int             // key -> step of the last fed change
-	gen       map[string]int             // key -> leaf generation (bumped by deletes)
-	latestVal map[string]string          // key#gen -> value most recently fed for that leaf object
-	submitted map[string]map[string]bool // key -> set of "ts|value" submitted by writers
-	parked    []*writer
-	busy      map[string]bool
-	live      map[string]bool
-	st        stats
-	fail      *failure
-	stored    map[*pb.Notification]*pb.Notification // stored notification object -> its content when first seen at a quiescent point
-	foreign   bool                                  // a writer stored a notification through another target's entry point (WOp.Via)
+	mu           sync.Mutex
+	fed          []fedEntry
+	known        map[string]bool            // keys (with target) currently stored, as seen through the feed
+	lastTouch    map[string]int             // key -> step of the last fed change
+	gen          map[string]int             // key -> leaf generation (bumped by deletes)
+	latestVal    map[string]string          // key#gen -> value most recently fed for that leaf object
+	submitted    map[string]map[string]bool // key -> set of "ts|value" submitted by writers
+	parked       []*writer
+	busy         map[string]bool
+	live         map[string]bool
+	st           stats
+	fail         *failure
+	stored       map[*pb.Notification]*pb.Notification // stored notification object -> its content when first seen at a quiescent point
+	noCacheReads bool                                  // the harness must not query the cache now (a Remove in progress may hold the cache's write lock)
+	foreign      bool                                  // a writer stored a notification through another target's entry point (WOp.Via)
 }
 
 func (w *world) failf(prop, format string, a ...any) {
@@ -701,7 +702,7 @@ func (w *world) buildNoti(op *WOp) *pb.Notification {
 		}
 		w.st.valueKinds[u.Val.Kind] = true
 		upd := gn.MakeUpdate(w.wpath(op, p), u.Val)
-		if i == 0 && first != nil && op.Near {
+		if i == 0 && first != nil && op.Near && !w.noCacheReads && len(w.parked) == 0 {
 			if nv := w.nearStored(name, first); nv != nil {
 				upd.Val, upd.Value = nv, nil
 				w.st.nearValue = true
@@ -1757,6 +1758,10 @@ func (w *world) stepRemoveReadd(st Step) {
 		w.st.skippedSteps++
 		return
 	}
+	// (the Remove of this step is parked inside the feed callback holding the cache's write lock while the
+	// harness builds the racing notification: no query of the cache from the harness meanwhile)
+	w.noCacheReads = true
+	defer func() { w.noCacheReads = false }()
 	for _, s := range w.subs {
 		if s.started && !s.ended && s.regStep < 0 {
 			// a subscription caught before its registration: not scheduled (see the remove step)
